@@ -56,10 +56,10 @@ PERTURB = {"MALLOC_PERTURB_": "85"}
 
 def plan(tier):
     if tier == "thorough":
-        return [{"variant": "plain", "workers": 12, "cases": 8000, "name": "plain", "env": PERTURB},
-                {"variant": "asan", "workers": 4, "cases": 1000, "name": "asan"}]
-    return [{"variant": "plain", "workers": 7, "cases": 700, "name": "plain", "env": PERTURB},
-            {"variant": "asan", "workers": 1, "cases": 100, "name": "asan"}]
+        return [{"variant": "plain", "workers": 12, "cases": 3000, "name": "plain", "env": PERTURB},
+                {"variant": "asan", "workers": 4, "cases": 300, "name": "asan"}]
+    return [{"variant": "plain", "workers": 7, "cases": 300, "name": "plain", "env": PERTURB},
+            {"variant": "asan", "workers": 1, "cases": 40, "name": "asan"}]
 
 
 def run(ctx):
